@@ -45,6 +45,7 @@ from .values import (
     SInt,
     SReal,
     SStr,
+    SymListV,
 )
 
 
@@ -93,6 +94,7 @@ class World:
         self.contracts = {}  # qualname -> spec FuncV
         self.assumed_contracts = set()
         self.broken_loops = {}
+        self.abstract = {}  # qualname of a spec function -> {"gen": fn, "raises": tuple}
         self.loopspecs = {}  # (qualname, ordinal) -> LoopSpec
         self.funcs_by_qualname = {}
         self.source_files = {}
@@ -850,6 +852,10 @@ class Interp:
             if isinstance(v.n, int):
                 return v.n > 0
             return self.ctx.decide(v.n > 0)
+        if isinstance(v, SymListV):
+            if v.items:
+                return True
+            return self.truthy(v.prefix, node)
         if isinstance(v, MapV):
             return self.lib.map_nonempty(self, v)
         if isinstance(v, ObjV):
@@ -934,6 +940,8 @@ class Interp:
             v, owner = obj.cls.lookup(name)
             if owner is not None:
                 return self.bind(v, obj, obj.cls, name, node)
+        if isinstance(obj, PropertyV) and name in ("fget", "func"):
+            return obj.fget
         if isinstance(obj, BoundMethod) and name == "__self__":
             return obj.self_
         if isinstance(obj, FuncV):
@@ -1021,6 +1029,8 @@ class Interp:
                 return self.call_function(spec, args, kwargs, node, force_body=True)
         if f.qualname in self.world.broken_loops:
             raise OutsideSubset(self.world.broken_loops[f.qualname])
+        if f.qualname in self.world.abstract and id(f) not in self.body_mode:
+            return self.ghost.abstract_call(f, args, kwargs, node)
         if f.is_async:
             return CoroV(f, list(args), dict(kwargs))
         return self.run_function(f, args, kwargs, node)
